@@ -34,7 +34,7 @@ RULE = ("valid cases: G-DAG N<=2 (every base pipeline and every single decoratio
         "pipelines + the 2-function pipelines whose second function consumes only `a`; thorough: every 2-function pipeline). operators, each at "
         "every position: duplicate output name (every output -> every other output name, incl. the sibling inside a tuple), output named like each "
         "own parameter, back edge closing a cycle / self loop, two different defaults for a shared root (signature/PipeFunc default, 4 "
-        "combinations), MapSpec naming a non-parameter (replace each input / add one), MapSpec missing an output, MapSpec output renamed / swapped "
+        "combinations, each also with None as one of the two defaults), MapSpec naming a non-parameter (replace each input / add one), MapSpec missing an output, MapSpec output renamed / swapped "
         "(each given on the PipeFunc and as (PipeFunc, mapspec) to Pipeline), inconsistent axes in one consumer (rename / swap / rank-1 / rank+1 of "
         "each indexed array named by >= 2 MapSpecs), bound parameter in a MapSpec; Pipeline-level construction faults in both listing orders. "
         "run-time: dropped input (each root; run(): per requested output, parameters also listed in reverse order), surplus input, zipped axis "
@@ -227,6 +227,8 @@ def common_construct_faults(spec, gen):
                     for k1 in ("sigdef", "pfdef"):
                         for order in _orders(n, "defaults"):
                             yield "defaults", {"p": p, "a": a, "b": b, "k0": k0, "k1": k1, "order": order}
+                            for none in ("a", "b"):  # one of the two defaults is None (a value, not "no default seen yet")
+                                yield "defaults", {"p": p, "a": a, "b": b, "k0": k0, "k1": k1, "order": order, "none": none}
     del gen
 
 
@@ -264,10 +266,11 @@ def apply_common(spec, op, pos, gen):
                     del f[kk][p]
                     if not f[kk]:
                         del f[kk]
-            f.setdefault(kind, {})[p] = dflt(tag)
+            f.setdefault(kind, {})[p] = None if pos.get("none") == tag[1].lower() else dflt(tag)
         if not has_default_conflict(funcs):
             return None
-        return s, f"{pos['k0']}/{pos['k1']}", {}, f"{p!r} has two different defaults"
+        return (s, f"{pos['k0']}/{pos['k1']}" + (f"+None-{pos['none']}" if pos.get("none") else ""), {},
+                f"{p!r} has two different defaults" + (" (one of them None)" if pos.get("none") else ""))
     raise ValueError(op)
 
 
